@@ -311,11 +311,13 @@ def run(ctx):
         bad_of.append(gi)
         if prim == "pulse":
             b2 = {**good, "steps": [list(s) for s in good["steps"]]}
-            k1 = next(x for x in chg if outs[x] == 1)
-            x = next(x for x in range(k1, len(b2["steps"])) if b2["steps"][x][1] == 1)     # the next output-clock edge
-            b2["steps"][x][4] = 1                                                           # pulse two cycles wide
-            bad.append(b2)
-            bad_of.append(gi)
+            for k1 in (x for x in chg if outs[x] == 1):
+                x = next((x for x in range(k1, len(b2["steps"])) if b2["steps"][x][1] == 1), None)  # the next output-clock edge
+                if x is not None and b2["steps"][x][4] == 0:     # (the real output is low again there: the corruption is one)
+                    b2["steps"][x][4] = 1                                                   # pulse two cycles wide
+                    bad.append(b2)
+                    bad_of.append(gi)
+                    break
 
     allv = tracecheck.validate(ctx, "CdcTrace", traces + bad, "real", cfg=TRACE_CFG)
     ctx.cov["traces_validated_against_impl"] -= len(bad)
